@@ -107,6 +107,22 @@ pub struct RunSpec {
     /// fault kind F8: per logical client, (call_no, monotonic jump ns, wall-clock jump ns) applied at the boundary
     /// before that call; the wall clock may jump backwards, the monotonic one never does
     pub clock_jumps: Vec<Vec<(u32, i64, i64)>>,
+    /// fault kind F9: per logical client, (call_no, kilobytes): that call is made from a caller frame that many
+    /// kilobytes further down the thread's stack
+    pub stack_depths: Vec<Vec<(u32, u32)>>,
+}
+
+/// run `f` from a frame roughly `bytes` further down the stack
+#[inline(never)]
+fn call_at_depth(bytes: usize, f: &mut dyn FnMut()) {
+    if bytes == 0 {
+        f();
+        return;
+    }
+    let mut pad = [0u8; 4096];
+    std::hint::black_box(&mut pad);
+    call_at_depth(bytes.saturating_sub(4096), f);
+    std::hint::black_box(&pad);
 }
 
 pub const VCLOCK_MONO_BASE: i64 = 1_000_000 * 1_000_000_000;
@@ -192,7 +208,7 @@ struct St {
     vmono: i64,
     vreal: i64,
     clock_reads: u64,
-    f: [u64; 9],
+    f: [u64; 10],
     preempt_site: [u64; NSITES],
     pairs: [[u64; NSITES]; NSITES],
     work_differs: u64,
@@ -771,7 +787,7 @@ impl Shared {
             "sh": format!("{:016x}", st.sched.finish()),
             "calls": st.calls, "ticks": st.ticks, "bt": st.block_ticks, "shh": st.shared_hits, "fw": st.futex_waits, "rsc": st.rescued,
             "steps": st.step, "sw": st.switches,
-            "f": st.f[1..9].to_vec(),
+            "f": st.f[1..10].to_vec(),
             "cr": st.clock_reads,
             "ps": st.preempt_site.to_vec(),
             "pairs": pairs,
@@ -838,9 +854,17 @@ fn client_main(sh: &'static Shared, me: usize, start_call: usize) {
             let e = &sh.pool.entries[entry as usize];
             let wake = sh.begin_call(me, k as u32, entry);
             c.wake.set(wake);
-            c.in_call.set(true);
-            let out = exec_call(&e.call);
-            c.in_call.set(false);
+            let depth_kb = sh.spec.stack_depths.get(me).and_then(|d| d.iter().find(|(kk, _)| *kk as usize == k).map(|(_, kb)| *kb)).unwrap_or(0);
+            let mut out_slot: Option<Outcome> = None;
+            if depth_kb > 0 {
+                sh.m.lock().unwrap().f[9] += 1;
+            }
+            call_at_depth(depth_kb as usize * 1024, &mut || {
+                c.in_call.set(true);
+                out_slot = Some(exec_call(&e.call));
+                c.in_call.set(false);
+            });
+            let out = out_slot.unwrap_or(Outcome::Panic("harness: call did not run".into()));
             sh.complete(me, k as u32, entry, out, c.ticks.get(), c.trace.get(), c);
             k += 1;
             if k < calls.len() && (churn_pending || churn.contains(&((k - 1) as u32))) {
@@ -935,7 +959,7 @@ pub fn run_child(pool: &Pool, spec: &RunSpec) -> ! {
         vmono: 0,
         vreal: 0,
         clock_reads: 0,
-        f: [0; 9],
+        f: [0; 10],
         preempt_site: [0; NSITES],
         pairs: [[0; NSITES]; NSITES],
         work_differs: 0,
